@@ -209,6 +209,8 @@ pub struct Model {
     pub cancelled_roots: Vec<String>,
     /// trace instance → finishing op of its root
     pub root_finish: HashMap<String, OpRef>,
+    /// a thread exited with commit/drop commands still parked behind a full ring
+    pub parked_at_exit: bool,
 }
 
 impl Model {
@@ -254,6 +256,7 @@ struct Builder<'a> {
     guards: Vec<Vec<G>>,
     fill_lines: Vec<usize>,
     order: usize,
+    no_reporter: bool,
 }
 
 impl<'a> Builder<'a> {
@@ -586,7 +589,7 @@ impl<'a> Builder<'a> {
                 props: vec![],
             },
             None => MSpan {
-                name: format!("noop@{}.{}", actor, idx),
+                name: format!("noop@{}.{}.{}", actor, idx, self.next_order()),
                 items: vec![],
                 is_root: false,
                 noop: true,
@@ -602,6 +605,21 @@ impl<'a> Builder<'a> {
     fn apply(&mut self, actor: usize, idx: usize, op: &Op) {
         let at: OpRef = (actor, idx);
         match op {
+            Op::Root { slot, name, .. } if self.no_reporter => {
+                let _ = name;
+                let s = MSpan {
+                    name: format!("noop@{}.{}.{}", actor, idx, self.next_order()),
+                    items: vec![],
+                    is_root: false,
+                    noop: true,
+                    created: at,
+                    finished: None,
+                    cancelled: None,
+                    props: vec![],
+                };
+                self.m.closures.push(ExpClosure { at, must_be_zero: true });
+                self.new_span(*slot, s);
+            }
             Op::Root { slot, name, trace, remote_parent, sampled, props } => {
                 let s = MSpan {
                     name: name.clone(),
@@ -687,7 +705,7 @@ impl<'a> Builder<'a> {
                 self.root_from(actor, idx, *slot, name, ctx);
             }
             Op::Noop { slot } => {
-                let name = format!("noop@{}.{}", actor, idx);
+                let name = format!("noop@{}.{}.{}", actor, idx, self.next_order());
                 let s = MSpan {
                     name,
                     items: vec![],
@@ -1135,7 +1153,14 @@ impl<'a> Builder<'a> {
                     }
                 }
             }
-            Op::Cycle | Op::Flush | Op::Signal(_) | Op::Wait(_) | Op::Fill { .. } | Op::BusyWait { .. } | Op::Warm => {}
+            Op::Cycle | Op::Flush | Op::Signal(_) | Op::Wait(_) | Op::Fill { .. } | Op::BusyWait { .. } | Op::Warm | Op::RandomIds | Op::AtThreadExit { .. } => {}
+            Op::RootRandom { slot, .. } => {
+                // the trace id is not known to the model: nothing is defined for this trace
+                let name = format!("noop@{}.{}.{}", actor, idx, self.next_order());
+                let s = MSpan { name, items: vec![], is_root: false, noop: true, created: at, finished: None, cancelled: None, props: vec![] };
+                self.new_span(*slot, s);
+                self.m.undefined.push(format!("{at:?}: random trace id"));
+            }
         }
     }
 }
@@ -1187,6 +1212,7 @@ pub fn build(program: &Program, ex: &Execution) -> Model {
         guards: vec![Vec::new(); n],
         fill_lines: vec![0; n],
         order: 0,
+        no_reporter: ex.no_reporter,
     };
     // executed order of operations = order of their OpEnd events; clocks; dropped commands
     let mut clocks: Vec<Vec<u32>> = vec![vec![0; n]; n];
@@ -1203,6 +1229,7 @@ pub fn build(program: &Program, ex: &Execution) -> Model {
                 // a wait joins the signaller's clock; the signal was necessarily logged earlier or
                 // will be before the wait is granted, so join at the end instead (below)
             }
+            Ev::Note(n) if n.starts_with("parked-at-exit") => b.m.parked_at_exit = true,
             Ev::Dropped => {
                 if let Some(op) = cur_op[a] {
                     *b.m.dropped_in.entry((a, op)).or_insert(0) += 1;
